@@ -17,6 +17,9 @@ MP_SRCS = format.cc posix.cc expr.cc nl-reader.cc option.cc os.cc problem.cc rst
   sol.cc solver.cc sp.cc std_constr.cc utils_file.cc utils_string.cc utils_clock.cc expr-info.cc \
   mp/flat/encodings.cpp mp/flat/piecewise_linear.cpp
 NLW_SRCS = nl-writer2.cc nl-solver.cc nl-utils.cc dtoa.cc nl-model-c.cc nl-solver-c.cc
+# the repository's own sample driver (solvers/visitor), second driver party of drvsim (main.cc and model-mgr-with-std-pb.cc
+# are replaced by the harness)
+VIS_SRCS = visitorbackend.cc visitorcommon.cc visitormodelapi.cc visitor-modelapi-connect.cc
 
 CORE_SRCS = sim/core/sim.cc sim/core/shim.cc sim/core/worker.cc
 DRV_SRCS = $(wildcard sim/drvsim/*.cc) $(wildcard sim/gen/*.cc) $(wildcard sim/oracle/*.cc)
@@ -24,7 +27,7 @@ IO_SRCS = $(wildcard sim/iosim/*.cc) $(wildcard sim/gen/*.cc) $(wildcard sim/ora
 
 obj = $(patsubst %,$(B)/$(1)/%.o,$(2))
 
-DRV_OBJS = $(call obj,drv,$(addprefix mp/,$(MP_SRCS)) $(addprefix nlw/,$(NLW_SRCS)) $(CORE_SRCS) $(DRV_SRCS))
+DRV_OBJS = $(call obj,drv,$(addprefix mp/,$(MP_SRCS)) $(addprefix nlw/,$(NLW_SRCS)) $(addprefix vis/,$(VIS_SRCS)) $(CORE_SRCS) $(DRV_SRCS))
 IO_OBJS = $(call obj,io,$(addprefix mp/,$(MP_SRCS)) $(addprefix nlw/,$(NLW_SRCS)) $(CORE_SRCS) $(IO_SRCS))
 
 all: $(B)/drvsim $(B)/iosim
@@ -55,6 +58,10 @@ $(B)/drv/mp/%.o: $(REPO)/src/% FORCE
 $(B)/drv/nlw/%.o: $(REPO)/nl-writer2/src/% FORCE
 	@mkdir -p $(dir $@)
 	@$(CXX) $(COMMON) $(SAN_DRV) -MMD -MP -c $< -o $@
+$(B)/drv/vis/%.o: $(REPO)/solvers/visitor/% FORCE
+	@mkdir -p $(dir $@)
+	@$(CXX) $(COMMON) -I$(REPO)/solvers/visitor $(SAN_DRV) -MMD -MP -c $< -o $@
+	@objcopy --weaken $@    # mp's converter headers define some non-inline functions: a program normally has one such TU, drvsim has two
 $(B)/drv/sim/%.o: sim/% FORCE
 	@mkdir -p $(dir $@)
 	@$(CXX) $(COMMON) $(SAN_DRV) -MMD -MP -c $< -o $@
